@@ -136,7 +136,7 @@ func (rs *reqState) decodeResponse(resp Response) *clientView {
 				return cv
 			}
 			if resp.Status == 200 && len(body) > 0 || resp.Status == 200 && rs.log().Sent > 0 {
-				if sp.Codec == "body" || rs.method.Key == "files" {
+				if sp.Codec == "body" || rs.method.httpBodyResp {
 					cv.Raw = append(cv.Raw, body)
 				} else {
 					add(sp.Codec, body)
